@@ -127,6 +127,45 @@ def analysis(prog):
     return a
 
 
+def _tolerated_like_ok(fn, call, value):
+    """None if, in the switch on this call's result, the case label for `value` reaches the block of `case 0` (CIF_OK) through
+    empty blocks only; otherwise a description of what was found."""
+    sw = None
+    for b in fn.blocks.values():
+        if b.term and b.term.get("k") == "SwitchStmt":
+            c = cfgq.cond_of(fn, b)
+            if c is not None and any(x.get("id") == call.get("id") for x in walk(c)):
+                sw = b
+    if sw is None:
+        return "no switch on the result of this call was found"
+    labels = {}
+    for s_ in sw.succs:
+        if s_ is not None and fn.blocks[s_].label and fn.blocks[s_].label.get("k") == "case":
+            labels[fn.blocks[s_].label.get("v")] = s_
+    if value not in labels:
+        return "it has no case label of its own (it takes the default arm)"
+    if 0 not in labels:
+        return "there is no case label for CIF_OK"
+    cur, hops = labels[value], 0
+    ok_block = labels[0]
+    ok_targets = {x for x in fn.blocks[ok_block].succs if x is not None}
+    while hops < 6:
+        if cur == ok_block:
+            return None
+        blk = fn.blocks[cur]
+        if blk.roots:
+            from ..facts import show as _show
+            return "its arm executes `%s`" % _show(blk.roots[0])[:50]
+        nxt = [x for x in blk.succs if x is not None]
+        if len(nxt) != 1:
+            return "its arm branches"
+        if nxt[0] in ok_targets and not fn.blocks[ok_block].roots:
+            return None
+        cur = nxt[0]
+        hops += 1
+    return "its arm does not join the arm of CIF_OK"
+
+
 def run(prog, chk):
     chk.level = "other"
     chk.explanation = ("Structural form of the error-callback contract, path-universal over every callback site of the parser: a "
@@ -217,7 +256,19 @@ def run(prog, chk):
             for c in sorted(sc):
                 key = "%s -> %s : %s" % (fname, callee, c)
                 if (fname, callee, c) in CANNOT_OCCUR or (fname, callee, "*") in CANNOT_OCCUR:
-                    r2b.ok(key, "cannot occur: " + (CANNOT_OCCUR.get((fname, callee, c)) or CANNOT_OCCUR[(fname, callee, "*")]))
+                    reason = CANNOT_OCCUR.get((fname, callee, c)) or CANNOT_OCCUR[(fname, callee, "*")]
+                    if reason.startswith("handled: listed as a tolerable case label"):
+                        # not a belief but a claim about the code: the code's case label shares the tolerated arm of CIF_OK
+                        why = _tolerated_like_ok(fn, call, codes[c])
+                        if why is None:
+                            r2b.ok(key, "tolerated: its case label falls into the arm of CIF_OK")
+                        else:
+                            r2b.violation(fn.file, fname, call.get("l"), "tolerated-code-not-tolerated:" + key,
+                                          "%s returns %s for a loop header made up of duplicate names only (each already reported "
+                                          "and accepted); the parser is meant to tolerate it like CIF_OK, but %s: the parse aborts "
+                                          "although every error was accepted" % (callee, c, why))
+                        continue
+                    r2b.ok(key, "cannot occur: " + reason)
                     continue
                 v = codes[c]
                 routed = False
